@@ -1066,6 +1066,12 @@ class FnTranslator:
             return self.call_translated(target, node, env)
         # --- other translated functions
         short = fname.split('.')[-1]
+        if short not in self.registry and args and isinstance(args[-1], ast.Name) and args[-1].id in ('max', 'min') \
+                and (short + '_' + args[-1].id) in self.registry and not node.keywords:
+            # a function-valued argument bound to a builtin: call the specialisation translated for it
+            target = self.registry[short + '_' + args[-1].id]
+            new = ast.Call(func=node.func, args=list(args[:-1]), keywords=[], lineno=node.lineno, col_offset=0)
+            return self.call_translated(target, new, env)
         if short in self.registry:
             target = self.registry[short]
             return self.call_translated(target, node, env)
@@ -2242,12 +2248,23 @@ def translate_all(repo, modules, out_dir):
                     and isinstance(n.value, (ast.Constant, ast.Set, ast.Tuple, ast.List)):
                 m['_consts'][n.targets[0].id] = n.value
         for fs in m.get('functions', []):
+            fs = dict(fs)
+            bind = fs.pop('bind', None)       # specialisation: a function-valued parameter bound to a builtin (max / min)
             spec = FnSpec(**fs)
+            spec.bind = bind or {}
             key = (spec.cls + '.' + spec.name) if spec.cls else spec.name
             node = funcs.get(key)
             if node is None:
                 manifest['errors'].append({'function': key, 'file': m['file'], 'error': 'not found in source'})
                 continue
+            if bind:
+                node = copy.deepcopy(node)
+
+                class _Bind(ast.NodeTransformer):
+                    def visit_Name(self, n):
+                        return ast.copy_location(ast.Name(id=bind[n.id], ctx=n.ctx), n) if n.id in bind else n
+                node.body = [_Bind().visit(b) for b in node.body]
+                node.args.args = [a_ for a_ in node.args.args if a_.arg not in bind]
             spec.node = node
             # defaults
             a = node.args
@@ -2264,7 +2281,7 @@ def translate_all(repo, modules, out_dir):
             spec.decos = [d for d in decorator_names(node) if d not in IGNORED_DECORATORS]
             if spec.cls and spec.coq_name == spec.name:
                 spec.coq_name = spec.cls + '_' + spec.name
-            registry[spec.coq_name if spec.cls else spec.name] = spec
+            registry[spec.coq_name if (spec.cls or spec.bind) else spec.name] = spec
             m['_specs'].append(spec)
     # the inherited mask path: DualTransform.apply_to_mask must have the known shape
     ti_src = open(os.path.join(repo, 'dicaugment/core/transforms_interface.py')).read()
